@@ -13,7 +13,7 @@ RULE = ("pass 1: honest streams sealed by the reference framer (x/crypto) and by
         "are already buffered, 37-byte segments, two segments; caller buffers of 4096 and 7 bytes; the caller keeps reading after "
         "an error). "
         "non-trivial = the alteration touches the stream (not the identity) ")
-EXTRA_FILES = ("Proofs/FramingProofs.v", "Base/ChaChaPolyProofs.v")
+EXTRA_FILES = ("Proofs/FramingProofs.v", "Base/ChaChaPolyProofs.v", "Proofs/ConnAdvProofs.v")
 ASSUMPTIONS = ["no forgery event: the AEAD's open never accepts a (nonce, aad, ciphertext, tag) the key holder did not seal (INT-CTXT of ChaCha20-Poly1305); stated as the left disjunct of C05_prefix_or_forgery, not proved",
                "HKDF output under different info labels differs (key separation is proved for the labels, assumed for the derived keys)"]
 
